@@ -45,10 +45,13 @@ A program ("case") is JSON:  dict(cpu=..., macros=[dict(name, glob, body=[item..
 Items (dict, key "k"):
   def   n how(equ|=|equ2|set|:=|lab|lab:|label) [v] [of] label kinds take the program counter; of=dict(n,q):
                                                            the value is the symbol `of` plus v
-  rept  c body       REPT c ... ENDM (labels in the body are local to each repetition)
+  rept  c body [glob] REPT c[,{GLOBALSYMBOLS}] ... ENDM (labels in the body are local to each repetition unless glob)
+  irp   p a body     IRP p,a1,a2.. ... ENDM; references in the body whose name is p stand for the arguments
   proc  n items      the manual's macro pair: proc n = SECTION n / PUBLIC n:PARENT / n LABEL $ ; endp n = ENDSECTION n
                      (needs case["procs"] = true, which emits the two macro definitions)
-  ref   n q          q: None | "" ([]) | "=Name" | "P" | "P0".."P9"     -> one data word
+  (ref, tref, nref, cref may carry ins=true: the reference is the operand of a machine instruction)
+  ref   n q [x]      q: None | "" ([]) | "=Name" | "P" | "P0".."P9"     -> one data word; x=(style, n): the
+                     reference stands in a small expression (sym+n, n+sym, sym-n, (sym)+n, sym + n); also tref, cref
   sect  n end items  SECTION n ... ENDSECTION [n]
   pub   n q g        PUBLIC / GLOBAL n[:q]      q: None | "=Name" | "P".."P9"
   fwd   n            FORWARD n
@@ -60,11 +63,12 @@ Items (dict, key "k"):
 """
 
 ORG = 0x100
+# word: data statement of one 16-bit word; ins/insb: an instruction with one 16-bit operand and its opcode bytes
 CPUS = {
-    "z80": dict(cpu="Z80", word="dw", big=False, nop=b"\x00", pc="$"),
-    "68000": dict(cpu="68000", word="dc.w", big=True, nop=b"\x4e\x71", pc="*"),
-    "6502": dict(cpu="6502", word="adr", big=False, nop=b"\xea", pc="*"),
-    "6809": dict(cpu="6809", word="fdb", big=True, nop=b"\x12", pc="*"),
+    "z80": dict(cpu="Z80", word="dw", big=False, nop=b"\x00", pc="$", ins="ld\thl,%s", insb=b"\x21"),
+    "68000": dict(cpu="68000", word="dc.w", big=True, nop=b"\x4e\x71", pc="*", ins="move.w\t#%s,d0", insb=b"\x30\x3c"),
+    "6502": dict(cpu="6502", word="adr", big=False, nop=b"\xea", pc="*", ins="jmp\t%s", insb=b"\x4c"),
+    "6809": dict(cpu="6809", word="fdb", big=True, nop=b"\x12", pc="*", ins="ldx\t#%s", insb=b"\x8e"),
 }
 LABEL_HOW = ("lab", "lab:", "label")
 CONST_HOW = ("equ", "=", "equ2") + LABEL_HOW
@@ -101,6 +105,23 @@ def qual_text(q, lower=False):
     return "[%s]" % (q_parent_text(q).lower() if lower else q_parent_text(q))
 
 
+def wrap_expr(sym, it):
+    """a reference may stand inside a small expression: x = (style, n); the word is then value+n resp. value-n"""
+    x = it.get("x")
+    if not x:
+        return sym
+    style, n = x
+    return {"+": "%s+%d", "pre": "%d+%s", "-": "%s-%d", "()": "(%s)+%d", "sp": "%s + %d"}[style] % (
+        (n, sym) if style == "pre" else (sym, n))
+
+
+def expr_delta(it):
+    x = it.get("x")
+    if not x:
+        return 0
+    return -x[1] if x[0] == "-" else x[1]
+
+
 def q_parent_text(q):
     return "PARENT" + q[1:]
 
@@ -117,6 +138,7 @@ class Prog:
         self.macros = {}
         self.sections = {}        # sid -> (name, parent sid)
         self.events = []
+        self.header_of_endm = {}  # line of the ENDM of a REPT/IRP -> line of the REPT/IRP statement
         self._build()
 
     # ---- numbering and lines
@@ -157,7 +179,7 @@ class Prog:
     def _size(self, it):
         k = it["k"]
         if k == "ref" or k == "tref" or k == "nref" or k == "cref":
-            return 2
+            return 2 + (len(self.cpu["insb"]) if it.get("ins") else 0)
         if k == "def":
             return len(self.cpu["nop"]) if it["how"] in ("lab", "lab:") else 0
         if k in ("tdef", "ndef", "cdef"):
@@ -213,7 +235,7 @@ class Prog:
                         raise Discard("nested construct in macro body")
                     self._event(bit["k"], bit, biid, path, ex, line, glob=bool(m.get("glob")), body="macro")
             elif k == "rept":
-                line = self.line_of[iid] = self._line("fix", iid, "\trept\t%d" % it["c"])
+                line = self.line_of[iid] = self._line("fix", iid, "\trept\t%d%s" % (it["c"], ",{GLOBALSYMBOLS}" if it.get("glob") else ""))
                 ids = []
                 for bit in it["body"]:
                     if bit["k"] in ("sect", "call", "rept"):
@@ -221,11 +243,30 @@ class Prog:
                     biid = self._new_item(bit)
                     ids.append(biid)
                     self.line_of[biid] = self._line("item", biid)
-                self._line("fix", iid, "\tendm")
+                self.header_of_endm[self._line("fix", iid, "\tendm")] = line
                 self._event("rept", it, iid, path, None, line)
                 for _ in range(it["c"]):
                     self._exp += 1
                     for bit, biid in zip(it["body"], ids):
+                        self._event(bit["k"], bit, biid, path, self._exp, self.line_of[biid], glob=bool(it.get("glob")),
+                                    body="rept")
+            elif k == "irp":
+                # IRP p,a1,a2,...: the body is assembled once per argument, p replaced by the argument
+                line = self.line_of[iid] = self._line("fix", iid, "\tirp\t%s,%s" % (it["p"], ",".join(it["a"])))
+                ids = []
+                for bit in it["body"]:
+                    if bit["k"] in ("sect", "call", "rept", "irp", "proc"):
+                        raise Discard("nested construct in IRP body")
+                    biid = self._new_item(bit)
+                    ids.append(biid)
+                    self.line_of[biid] = self._line("item", biid)
+                self.header_of_endm[self._line("fix", iid, "\tendm")] = line
+                self._event("rept", it, iid, path, None, line)
+                for arg in it["a"]:
+                    self._exp += 1
+                    for bit, biid in zip(it["body"], ids):
+                        if bit["k"] == "ref" and bit["n"] == it["p"]:
+                            bit = dict(bit, n=arg, param=it["p"])
                         self._event(bit["k"], bit, biid, path, self._exp, self.line_of[biid], body="rept")
             else:
                 line = self.line_of[iid] = self._line("item", iid)
@@ -259,8 +300,20 @@ class Prog:
             if how == "equ2":
                 return "\tequ\t%s,%s" % (n, val)
             return "%s\t%s\t%s" % (n, how, val)
-        if k == "ref":
-            return "\t%s\t%s%s" % (W, it["n"], qual_text(it.get("q"), it.get("pl"))) if not off else "\t%s\t0" % W
+        if k in ("ref", "tref", "nref", "cref"):
+            if off:
+                arg = "0"
+            elif k == "ref":
+                arg = wrap_expr(it["n"] + qual_text(it.get("q"), it.get("pl")), it)
+            elif k == "tref":
+                arg = wrap_expr("$$" + it["n"], it)
+            elif k == "cref":
+                arg = wrap_expr("." + it["n"], it)
+            else:
+                arg = it["c"] * it["d"]
+            if it.get("ins"):
+                return "\t" + cpu["ins"] % arg
+            return "\t%s\t%s" % (W, arg)
         if k == "pub":
             if off:
                 return "; off"
@@ -273,16 +326,10 @@ class Prog:
             return "\t%s" % it["m"]
         if k == "tdef":
             return ("$$%s:\tnop" % it["n"]) if not off else "\tnop"
-        if k == "tref":
-            return "\t%s\t$$%s" % (W, it["n"]) if not off else "\t%s\t0" % W
         if k == "ndef":
             return ("%s\tnop" % it["c"]) if not off else "\tnop"
-        if k == "nref":
-            return "\t%s\t%s" % (W, it["c"] * it["d"]) if not off else "\t%s\t0" % W
         if k == "cdef":
             return (".%s%s\tnop" % (it["n"], ":" if it.get("colon") else "")) if not off else "\tnop"
-        if k == "cref":
-            return "\t%s\t.%s" % (W, it["n"]) if not off else "\t%s\t0" % W
         if k in ("pushv", "popv"):
             if off:
                 return "; off"
@@ -294,8 +341,8 @@ class Slot:
     __slots__ = ("addr", "line", "iid", "exp", "value", "status", "tags", "text")
     # status: 'value' | 'undef' | 'qual' | 'skip'
 
-    def __init__(self, ev):
-        self.addr, self.line, self.iid, self.exp = ev.addr, ev.line, ev.iid, ev.exp
+    def __init__(self, ev, plen=0):
+        self.addr, self.line, self.iid, self.exp = ev.addr + plen, ev.line, ev.iid, ev.exp
         self.value, self.status, self.tags, self.text = None, None, [], None
 
 
@@ -309,8 +356,6 @@ class Result:
     def fault(self, cls, ev, why, line=None, key=None, also=()):
         """key: item to switch off to remove the fault (default: the event's item); a macro body item can be
         faulty in several expansions, i.e. on several (call) lines"""
-        if ev.body == "rept":
-            raise Discard("faulty statement inside a REPT body")
         if ev.body == "proc":
             raise Discard("faulty statement inside the proc macro")
         rec = self.faults[cls].setdefault(ev.iid if key is None else key, ([], why, []))
@@ -581,7 +626,7 @@ def evaluate(prog, U, off=frozenset()):
             continue
         if ev.iid in off:
             if k in ("ref", "tref", "nref", "cref"):
-                s = Slot(ev)
+                s = Slot(ev, len(prog.cpu["insb"]) if it.get("ins") else 0)
                 s.status, s.value = "value", 0
                 s.tags = ["off"]
                 res.slots.append(s)
@@ -635,7 +680,7 @@ def evaluate(prog, U, off=frozenset()):
             continue
         if k not in ("ref", "tref", "nref", "cref"):
             continue
-        s = Slot(ev)
+        s = Slot(ev, len(prog.cpu["insb"]) if it.get("ins") else 0)
         res.slots.append(s)
         tags = []
         st, e = None, None
@@ -685,7 +730,11 @@ def evaluate(prog, U, off=frozenset()):
                 st = "skip"          # variable read before its first assignment: forward reference to a variable
                 tags.append("var-before-set")
             else:
-                s.status, s.value = "value", v & 0xffff
+                s.status, s.value = "value", (v + expr_delta(it)) & 0xffff
+                if it.get("x"):
+                    tags.append("in-expression")
+                if it.get("ins"):
+                    tags.append("instruction-operand")
                 tags.append(e.kind)
                 if e.thunk is not None:
                     tags.append("by-expression")
